@@ -35,12 +35,13 @@ def var0 : XmlVar := treeVar (s "w")
 def nsX : NsMap := [(some (s "p"), s "urn:x"), (none, s "urn:d")]
 
 /-- `<p:foo k="v" p:j="a b"> <d:a>  </d:a> mixed <b/>tail<p:foo/>\n</p:foo>` : two namespaces,
-attributes, mixed content, whitespace-only text in a leaf (kept) and next to children (dropped) -/
+attributes (an `xsi:nil` on an empty and on a non-empty element among them), mixed content,
+whitespace-only text in a leaf (kept) and next to children (dropped) -/
 def exTree : Tree :=
   .node (s "{urn:x}foo") [(s "k", s "v"), (s "{urn:x}j", s "a b")] nsX (some (s " "))
     [ .node (s "{urn:d}a") [] nsX (some (s "  ")) [] (some (s " mixed ")),
-      .node (s "b") [] nsX none [] (some (s "tail")),
-      .node (s "{urn:x}foo") [] nsX (some []) [] (some (s "\n")) ] none
+      .node (s "b") [(xsiNil, s "true")] nsX none [] (some (s "tail")),
+      .node (s "{urn:x}foo") [(xsiNil, s "false")] nsX (some (s "x")) [] (some (s "\n")) ] none
 
 def rootAttrs : Tree → List (QN × Str) | .node _ a _ _ _ _ => a
 def rootText : Tree → Option Str | .node _ _ _ t _ _ => t
@@ -108,19 +109,27 @@ theorem any_roundtrip_full_false : ¬ any_roundtrip_full := by
   decide
 
 /-- the provable part of `any_roundtrip_full` under its conventional name: the excluded region is
-exactly `treeOK` (attribute values `p:local` with `p` declared, `xsi:nil`, Clark names of builtin
+exactly `treeOK` (attribute values `p:local` with `p` declared, Clark names of builtin
 datatypes / on `xsi:type`) -/
 theorem any_roundtrip_partial (e : BEnv) (Γ : Ctx) (cfg : ParserConfig) (isDt : Str → Bool) (var : XmlVar) (t : Tree)
     (hw : var.isWildcard = true) (hok : treeOK isDt t = true) (htl : rootTailBlank e.py t = true) :
     ∃ t', wildRoundtrip1 e Γ cfg isDt var t = .ok t' ∧ wsEq e.py t' t :=
   any_roundtrip_ws e Γ cfg isDt var t hw hok htl
 
-/-- witness 2: `<foo xsi:nil="true"/>` under a non-nillable wildcard: `WildcardNode.bind` turns the
-missing text into `""`, and `flush_start(is_nil=False)` pops `xsi:nil` -/
+/-- `xsi:nil` on a generic element is the document's own attribute and is kept (it used to be
+popped by `flush_start(is_nil=False)` because `WildcardNode.bind` turns the missing text into `""`;
+`convert_any_element` now flushes the start tag with a `DATA None` first).  `treeOK` no longer
+excludes it; two concrete instances: -/
 def wNil : Tree := .node (s "foo") [(xsiNil, s "true")] [] none [] none
+def wNilContent : Tree := .node (s "foo") [(s "k", s "v"), (xsiNil, s "false")] [] (some (s "x")) [] none
 
-theorem anyattr_xsi_nil_dropped :
-    (wildRoundtrip1 e0 Γ0 {} isDt0 var0 wNil).map rootAttrs = .ok [] := by rfl
+theorem anyattr_xsi_nil_kept :
+    (wildRoundtrip1 e0 Γ0 {} isDt0 var0 wNil).map rootAttrs = .ok [(xsiNil, s "true")] ∧
+    (wildRoundtrip1 e0 Γ0 {} isDt0 var0 wNilContent).map rootAttrs = .ok [(s "k", s "v"), (xsiNil, s "false")] ∧
+    (wildRoundtrip1 e0 Γ0 {} isDt0 var0 wNilContent).map rootText = .ok (some (s "x")) :=
+  ⟨by rfl, by rfl, by rfl⟩
+
+example : treeOK isDt0 wNil = true ∧ treeOK isDt0 wNilContent = true := by decide
 
 /-! ### 2. variants: generic content inside a host element -/
 
@@ -328,5 +337,79 @@ theorem tree_parser_same (e : BEnv) (Γ Γ' : Ctx) (cfg cfg' : ParserConfig) (va
     simp [treeParse, this, hv, bind, Except.bind, pure, Except.pure, anyOf]
 
 example : var0.isWildcard = true ∧ var0.nillable = false := by decide
+
+/-! ### 5. xsi:type'd primitives as wildcard content (`StandardNode` / `DerivedElement`) -/
+
+/-- the object a `StandardNode` leaves for the tail of its element in mixed content -/
+def tailObjs (e : Env) (tl : Option Str) : Objs :=
+  match normalizeContent e tl with
+  | some t => [(none, .prim (.str t))]
+  | none => []
+
+/-- **standard_mixed_tail.** In mixed content a `StandardNode` (an element with `xsi:type` naming
+a builtin datatype) leaves, after the value it leaves anyway, the tail text of its element —
+exactly what `PrimitiveNode` does; outside mixed content nothing changes. -/
+theorem standard_mixed_tail (e : BEnv) (Γ : Ctx) (cfg : ParserConfig) (var : XmlVar) (dt : PT) (ns : NsMap)
+    (nillable derived : Bool) (q : QN) (a : List (QN × Str)) (n : NsMap) (t tl : Option Str) (out : Out)
+    (h : parseNode e Γ cfg (.standard var dt ns nillable derived false) (.node q a n t [] tl) = .ok out) :
+    parseNode e Γ cfg (.standard var dt ns nillable derived true) (.node q a n t [] tl)
+      = .ok ⟨out.objs ++ tailObjs e.py tl, out.warns⟩ := by
+  simp only [parseNode, List.isEmpty_nil, Bool.not_true, Bool.false_eq_true, if_false, bind, Except.bind,
+    pure, Except.pure] at h ⊢
+  cases hp : parseVar e cfg var.toVarCore t ns (some [.prim dt]) with
+  | error err => simp [hp] at h
+  | ok r =>
+    simp only [hp] at h ⊢
+    injection h with h
+    subst h
+    simp only [tailObjs, if_true, List.append_nil]
+    cases normalizeContent e.py tl <;> rfl
+
+example : parseNode e0 Γ0 {} (.standard var0 .str [] false true false) (.node (s "y") [] [] (some (s "v")) [] (some (s "tail")))
+    = .ok ⟨[(some (s "y"), .derived (s "y") (.prim (.str (s "v"))) none)], 0⟩ := by rfl
+
+/-- concrete: `<y xsi:type="xs:string">v</y>tail` in mixed content -/
+theorem standard_mixed_tail_kept :
+    parseNode e0 Γ0 {} (.standard var0 .str [] false true true) (.node (s "y") [] [] (some (s "v")) [] (some (s "tail")))
+      = .ok ⟨[(some (s "y"), .derived (s "y") (.prim (.str (s "v"))) none), (none, .prim (.str (s "tail")))], 0⟩ := by
+  rfl
+
+/-- **choice_wildcard_derived.** In a compound field a `DerivedElement` whose name is matched by
+a *wildcard* choice is rendered by `convert_any_type` with that choice, i.e. exactly as a wildcard
+field renders it … -/
+theorem choice_wildcard_derived (e : BEnv) (Γ : Ctx) (cfg : SerCfg) (fuel : Nat) (var choice : XmlVar)
+    (q : QN) (v : Val) (ty : Option QN) (ns : Option Str)
+    (hc : var.findChoice q = some choice) (hw : choice.isWildcard = true) :
+    genChoice e Γ cfg (fuel + 1) (.derived q v ty) var ns
+      = genAnyType e Γ cfg fuel (.derived q v ty) choice ns := by
+  simp [genChoice, hc, hw]
+
+/-- … so an xsi:type'd primitive keeps its element name and its `xsi:type` (it used to be written
+under the placeholder name `any` of the wildcard choice, without type). -/
+theorem choice_wildcard_primitive (e : BEnv) (Γ : Ctx) (cfg : SerCfg) (fuel : Nat) (var choice : XmlVar)
+    (q : QN) (p : PVal) (ty : Option QN) (ns : Option Str) (d : Data)
+    (hc : var.findChoice q = some choice) (hw : choice.isWildcard = true)
+    (hd : encodePrimitive (.prim p) = .ok d) :
+    genChoice e Γ cfg (fuel + 2) (.derived q (.prim p) ty) var ns
+      = .ok [Ev.start q, Ev.attr xsiType (.prim (.qname (datatypeOf p))), Ev.data d, Ev.end q] := by
+  rw [choice_wildcard_derived e Γ cfg (fuel + 1) var choice q _ ty ns hc hw]
+  simp [genAnyType, hd, bind, Except.bind, pure, Except.pure]
+
+/-- a compound var with a literal choice `known` and a `##any` wildcard choice -/
+def core0 : VarCore := var0.toVarCore
+def coreKnown : VarCore := { core0 with kind := VarKind.element, qname := s "known", types := [TypeRef.prim PT.str] }
+def coreAny : VarCore := { core0 with qname := s "any", namespaces := [anyNs] }
+def varChoice : XmlVar :=
+  { toVarCore := { core0 with kind := VarKind.elements, listElement := true }
+    elements := [(s "known", coreKnown)]
+    wildcards := [coreAny] }
+
+example : (varChoice.findChoice (s "{urn:x}z")).map (·.isWildcard) = some true := by decide
+example : encodePrimitive (.prim (.bool true)) = .ok (.prim (.str (s "true"))) := by rfl
+
+theorem choice_wildcard_primitive_witness :
+    genChoice e0 Γ0 {} 2 (.derived (s "{urn:x}z") (.prim (.bool true)) none) varChoice none
+      = .ok [Ev.start (s "{urn:x}z"), Ev.attr xsiType (.prim (.qname (datatypeOf (.bool true)))),
+             Ev.data (.prim (.str (s "true"))), Ev.end (s "{urn:x}z")] := by rfl
 
 end Props.C11
